@@ -425,6 +425,39 @@ def cmd_search(sidecar, file, qualname, n, seed, out):
     return 0
 
 
+def cmd_searchall(sidecar, tier, seed, out):
+    """Bounded stand-in / cross-check: every contract of the sidecar that has a generator, at the tier's bound."""
+    mod = load_sidecar(os.path.join(HERE, sidecar))
+    n = {'quick': 150, 'thorough': 3000}.get(tier, 150)
+    res = {'evaluations': 0, 'distinct': 0, 'violations': [], 'samples': [], 'sections': {}}
+    for (file, qualname), fn in list(lang.REGISTRY['contracts'].items()):
+        gen = getattr(mod, 'gen_' + fn.__name__, None)
+        if gen is None or file == '<ext>':
+            continue
+        rng = random.Random(int(seed) * 7919 + len(qualname))
+        sec = res['sections'].setdefault(qualname, {'n': 0, 'bad': 0, 'valid': 0})
+        seen = set()
+        for sc in gen(rng, n):
+            res['evaluations'] += 1
+            sec['n'] += 1
+            r = run_case(mod, file, qualname, sc)
+            if r['status'] in ('precondition-false', 'precondition-error'):
+                continue
+            sec['valid'] += 1
+            seen.add(json.dumps(sc, sort_keys=True, default=str))
+            if len(res['samples']) < 3 and sec['valid'] == 1:
+                res['samples'].append({'function': qualname, 'scenario': _short(sc), 'outcome': r['status']})
+            if r['status'] == 'contract-violated':
+                sec['bad'] += 1
+                if len(res['violations']) < 10:
+                    res['violations'].append({'class': qualname + ':' + (r['failed'][0].split(':')[0] if r['failed'] else '?'),
+                                              'function': [file, qualname], 'sidecar': sidecar, 'scenario': sc, 'native': r})
+        res['distinct'] += len(seen)
+    with open(out, 'w') as f:
+        json.dump(res, f, indent=1, default=str)
+    return 1 if res['violations'] else 0
+
+
 def _short(sc):
     s = json.dumps(sc, default=str)
     return s if len(s) < 400 else s[:400] + '...'
@@ -441,6 +474,8 @@ def main():
                 rc[0] = cmd_replay(sys.argv[2])
             elif sys.argv[1] == 'search':
                 rc[0] = cmd_search(*sys.argv[2:8])
+            elif sys.argv[1] == 'searchall':
+                rc[0] = cmd_searchall(*sys.argv[2:6])
             else:
                 print('usage')
                 rc[0] = 3
